@@ -270,7 +270,9 @@ def _assigned_literals(funcs):
 
 def run_mps(prog, rule="R-TOKENS"):
     res = RuleResult(rule, "every section keyword, row-type letter, bound-type mnemonic and marker the MPS writer emits is accepted by the MPS reader")
-    wfuncs = [prog.require_fn("mpq_ILLwrite_mps")] + [f for f in prog.funcs.values() if f.name == "mps_write_col" and "mps_mpq" in f.unit]
+    w0 = prog.require_fn("mpq_ILLwrite_mps")
+    # the writer and the static helpers of its unit that it (transitively) calls - whatever they are called
+    wfuncs = [w0] + [f for f in closure_funcs(prog, ["mpq_ILLwrite_mps"]) if f.static and f.unit == w0.unit and f.key != w0.key]
     rfuncs = closure_funcs(prog, ["mpq_ILLread_mps"])
     rfuncs = [f for f in rfuncs if "mps" in f.unit or "rawlp" in f.unit]
     tables = string_tables(prog)
